@@ -42,6 +42,19 @@ func DecodeBody(body hcl.Body, bodySchema *schema.BodySchema) BodyContent {
 	// and blocks are otherwise ambiguous
 	if bodySchema != nil {
 		hclSchema := bodySchema.ToHCLSchema()
+		if bodySchema.Extensions != nil {
+			// attributes enabled by extensions are part of the schema too
+			if bodySchema.Extensions.Count {
+				if _, ok := bodySchema.Attributes["count"]; !ok {
+					hclSchema.Attributes = append(hclSchema.Attributes, hcl.AttributeSchema{Name: "count"})
+				}
+			}
+			if bodySchema.Extensions.ForEach {
+				if _, ok := bodySchema.Attributes["for_each"]; !ok {
+					hclSchema.Attributes = append(hclSchema.Attributes, hcl.AttributeSchema{Name: "for_each"})
+				}
+			}
+		}
 		bContent, remainingBody, _ := body.PartialContent(hclSchema)
 
 		content.Attributes = bContent.Attributes
